@@ -355,8 +355,42 @@ def rule_count(ctx):
                     res.ok()
                 else:
                     res.violate("%s : fold-size-numerator" % key, "fold size is computed from something that is not the sample count: %s" % why, fn_loc(fn, e.node["ln"]))
-    # ChunksIter: number of chunks derives from len_of(axis)/size
-    return res.finish(2)
+    # ChunksIter: block i is rows [i*size, (i+1)*size) and iteration stops after len_of(axis)/size blocks
+    for fn in the_fn(res, F, "next", "ChunksIter"):
+        key = fn_key(fn)
+        tr = DivTracer(fn).run()
+        cuts = [e for e in tr.events if e.kind == "call" and e.name in ("slice_axis_inplace", "slice_axis", "slice_axis_mut") and len(e.args) == 2]
+        if len(cuts) < 2:
+            res.missing_anchor("the two slice_axis_inplace cuts of ChunksIter::next (found %d)" % len(cuts))
+        idx_atom, size_atom = "field:idx(param:self)", "field:size(param:self)"
+        for i, e in enumerate(cuts):
+            res.instance("%s : cut #%d bounds" % (key, i))
+            rng = None
+            for t in walk_terms(e.args[1]):
+                if isinstance(t, Term) and t.op == "struct:std::ops::Range":
+                    rng = dict((a.op[1:], a.args[0]) for a in t.args if isinstance(a, Term) and a.op.startswith("=") and a.args)
+            lo, hi = (as_poly(rng.get("start")), as_poly(rng.get("end"))) if rng else (None, None)
+            want_lo = Poly.atom(Term(idx_atom)) * Poly.atom(Term(size_atom))
+            if lo is None or hi is None:
+                res.violate("%s : block-bounds:#%d" % (key, i), "cannot read the block bounds as a half-open range (fail closed): %s" % k(e.args[1])[:80], fn_loc(fn, e.node["ln"]))
+            elif lo == want_lo and (hi - lo) == Poly.atom(Term(size_atom)):
+                res.ok()
+                res.sample({"fn": key, "block": "[idx*size, (idx+1)*size)"})
+            else:
+                res.violate("%s : block-bounds:#%d" % (key, i), "validation block %d is cut as [%s, %s); the k-th block must be the consecutive rows [idx*size, (idx+1)*size)" % (i, k(rng.get("start"))[:60], k(rng.get("end"))[:60]), fn_loc(fn, e.node["ln"]))
+        # stop test: idx == len_of(axis) / size
+        res.instance("%s : stops after len/size blocks" % key)
+        stops = [e for e in tr.events if e.kind == "ret" and as_term(e.val) is not None and as_term(e.val).op.endswith("None") and e.guards]
+        okstop = False
+        for e in stops:
+            g = e.guards[-1]
+            if g[0] == "+" and "bin:/(call:len_of(field:records(param:self), field:axis(param:self)), field:size(param:self))" in g[1] and idx_atom in g[1] and "==" in g[1]:
+                okstop = True
+        if okstop:
+            res.ok()
+        else:
+            res.violate("%s : stop-test" % key, "iteration does not stop exactly when idx == len_of(axis) / size", fn_loc(fn))
+    return res.finish(5)
 
 
 class DivTracer(Tracer):
